@@ -138,6 +138,17 @@ def x86AbsOperand (buf : Bytes) (p0 : Nat) (is64 : Bool) : Option (Bool × Bool 
     else none
   | _, _ => none
 
+/-- x86 ISA: `A0..A3` (mov between the accumulator and `[moffs]`): position and size of the address literal
+(address size = 4 in 32-bit mode, 8 in 64-bit mode; no 67h in the menu) -/
+def x86Moffs (buf : Bytes) (p0 : Nat) (is64 : Bool) : Option (Nat × Nat) :=
+  let p1 := if buf[p0]? = some 0x66#8 then p0 + 1 else p0
+  let p2 := match buf[p1]? with
+    | some b => if is64 ∧ b &&& 0xF0#8 = 0x40#8 then p1 + 1 else p1
+    | none => p1
+  match buf[p2]? with
+  | some b => if b &&& 0xFC#8 = 0xA0#8 then some (p2 + 1, if is64 then 8 else 4) else none
+  | none => none
+
 inductive Verdict where
   | correct            -- the bytes designate exactly the target
   | pendingOk          -- not (yet) resolved, and legitimately so (label unbound / displacement not representable)
@@ -246,6 +257,15 @@ def judgeRef (g : Ghost) (d : Dump) (r : Ref) : Verdict :=
   | .memAbs immLen =>
     -- the address the CPU uses: rip-relative = end of instruction + sext(disp32) (needs the final base); absolute =
     -- sext(disp32), or zext(disp32) under a 67h prefix; `lea r32, [..]` keeps the low 32 bits
+    match x86Moffs buf r.start (g.arch = .x64) with
+    | some (fp, n) =>
+      -- `mov acc, [moffs]` / `mov [moffs], acc`: the address is the literal that follows the opcode
+      if fp + n ≠ r.stop then .bad "memory-operand-length" else
+      match loadLE buf fp n with
+      | some v => if BitVec.ofNat 64 v == (if g.arch = .x86 then r.addend &&& 0xFFFFFFFF#64 else r.addend) then .correct
+                  else .bad "absolute-operand-wrong-address"
+      | none => .bad "field-out-of-buffer"
+    | none =>
     match x86AbsOperand buf r.start (g.arch = .x64) with
     | none => .bad "not-an-absolute-memory-operand"
     | some (has67, rexW, opc, ripRel, fp) =>
